@@ -16,8 +16,9 @@ pub struct Case {
     pub kind: String,
 }
 
-pub const PIECES: [&str; 22] = [
+pub const PIECES: [&str; 27] = [
     "a", "b", "c", "d", "-", "1", "2", ".", "*", "?", "[0-9]", ">=", "<", ">", "", "a-", "[a,b]", "[", "]", "[!a-c]", "é", "<=",
+    "\\", "-[0-9]*", "+", "_", "٣",
 ];
 
 #[derive(Clone, Debug)]
@@ -80,7 +81,7 @@ pub fn instantiate(e: &str, sels: &[u16; 4]) -> String {
         return format!("{}-{}", base, VERS[idx(sels[0], VERS.len())]);
     }
     if m::has_glob_meta(e) {
-        const STAR: [&str; 6] = ["", "1", "x", "-2.0", "ab", "1.0"];
+        const STAR: [&str; 9] = ["", "1", "x", "-2.0", "ab", "1.0", "٣.0", "²", "１"];
         const ANY: [&str; 4] = ["a", "1", "-", "é"];
         let mut out = String::new();
         let cs: Vec<char> = e.chars().collect();
@@ -177,7 +178,7 @@ fn mutate(s: &str, kind: u8, sel: u16) -> String {
         0 if !cs.is_empty() => {
             cs.remove(k);
         }
-        1 => cs.insert(idx(sel, cs.len() + 1), ['a', '1', '-', '.'][(sel % 4) as usize]),
+        1 => cs.insert(idx(sel, cs.len() + 1), ['a', '1', '-', '.', '٣', '²', '\\', ','][(sel % 8) as usize]),
         2 if !cs.is_empty() => cs[k] = if cs[k] == 'a' { 'b' } else { 'a' },
         _ => cs.push('x'),
     }
